@@ -250,6 +250,13 @@ func (s *Lexer) readNumber() (Token, error) {
 		}
 	}
 
+	// Numbers cannot be followed by . or NameStart
+	if s.end < len(s.Input) {
+		if c := s.Input[s.end]; c == '.' || c == '_' || (c >= 'a' && c <= 'z') || (c >= 'A' && c <= 'Z') {
+			return s.makeError("Invalid number, expected digit but got: %s.", s.describeNext())
+		}
+	}
+
 	if float {
 		return s.makeToken(Float)
 	}
